@@ -5,7 +5,11 @@ from harness.runner import BCheck
 from scenario import pedigree as PED, phasing as PH, vcf as V
 
 LEVEL = "other"
-LEVEL_TEXT = ("Deductive: mendelian_conflict (pedigree.py) verified for all diploid genotype triples; popcount (recombination term) verified for all 64-bit "
+LEVEL_TEXT = ("Deductive: mendelian_conflict (pedigree.py) verified for all diploid genotype triples; find_mendelian_conflicts (cli/phase.py) returns exactly the variant "
+              "indices at which some trio with both parents known has three called genotypes in conflict, for any number of trios and variants (it uses "
+              "mendelian_conflict through its contract); find_phaseable_variants phases a COPY of the table from which exactly those rows are removed where some family member's "
+              "genotype is missing, or some trio is in conflict, or (without --include-homozygous) no family member is heterozygous - the rows written unphased for the whole "
+              "family (contracts/phaseped_py.py); popcount (recombination term) verified for all 64-bit "
               "arguments. Bounded stand-in for the rest: the compiled PedigreeDPTable against the brute-force PedMEC oracle incl. identity by descent "
               "along the returned transmission (shared with C01), and whole `whatshap phase --ped` runs on generated trios/quartets (all genotype "
               "combinations incl. injected Mendelian conflicts and missing genotypes, with reads, without any read, uniform recombination costs): "
@@ -13,7 +17,7 @@ LEVEL_TEXT = ("Deductive: mendelian_conflict (pedigree.py) verified for all dipl
               "variants with a homozygous parent phased without reads, output alleles equal the solver's super-reads.")
 LEVEL_NOTE = "Proved: two leaf functions only. Trusted: PedMEC oracle, independent VCF decoder, z3."
 TECHNIQUE = "contract-based deductive verification of mendelian_conflict and popcount (vcgen, z3) + bounded runtime contracts on PedigreeDPTable and run_whatshap --ped"
-D_MODULES = ["contracts.pedigree_py", "contracts.pedigreedptable_cpp"]
+D_MODULES = ["contracts.pedigree_py", "contracts.phaseped_py", "contracts.pedigreedptable_cpp"]
 EXPLANATION = LEVEL_TEXT
 TRUSTED_BASE = ["z3/cvc5", "vcgen semantics", "Genotype modelled by its allele vector (as_vector assumed)"]
 ASSUMPTIONS = ["find_mendelian_conflicts / find_phaseable_variants / create_pedigree are covered by the bounded run-level check only"]
